@@ -144,6 +144,19 @@ func init() {
 		}}
 }
 
+func init() {
+	Checks["C11"] = &Check{Level: "model_checking", Run: CheckC11, QuickBudget: 300, ThoroughBudget: 1800,
+		ReplayBody: func(h string) explore.Body {
+			for _, sc := range c11Scenarios(true) {
+				if "C11b/"+sc.name == h {
+					sc := sc
+					return sc.body
+				}
+			}
+			return nil
+		}}
+}
+
 // kReplay re-executes an operation-history counterexample of the K space.
 func kReplay(prop string) func(v *Viol) []string {
 	return func(v *Viol) []string {
